@@ -1,9 +1,13 @@
 #!/bin/sh
-# MANIFEST.setup_cmd: regenerate Gen/*.v from /repo and build the whole Coq development (full .vo).
-set -e
+# MANIFEST.setup_cmd: regenerate Gen/*.v from /repo and build the whole Coq development (full .vo, no -vos).
+# A target that does not build is reported by the check of the property that needs it, so the build keeps going (-k).
 cd "$(dirname "$0")"
 mkdir -p build evidence replays
 /venv/bin/python gen/translate.py "${VERIF_REPO:-/repo}" coq/theories/Gen >/dev/null || true
+./harness/mkproject.sh
 cd coq
-coq_makefile -f _CoqProject -o Makefile >/dev/null
-timeout 3000 make -j16
+timeout 3300 make -k -j16 > ../build/setup.log 2>&1
+rc=$?
+tail -3 ../build/setup.log
+[ $rc -eq 0 ] || echo "setup: some Coq targets did not build (rc=$rc); see build/setup.log"
+exit 0
